@@ -452,11 +452,23 @@ def run(ctx):
     okw = False
     for w in whiles:
         t = ast.unparse(w.test)
-        if "self._size()" in t and ">" in t and "max_size_bytes" in t and "not" not in t:
+        cmp_ = w.test
+        strict = isinstance(cmp_, ast.Compare) and len(cmp_.ops) == 1 and (
+            (isinstance(cmp_.ops[0], ast.Gt) and "self._size()" in ast.unparse(cmp_.left) and "max_size_bytes" in ast.unparse(cmp_.comparators[0]))
+            or (isinstance(cmp_.ops[0], ast.Lt) and "max_size_bytes" in ast.unparse(cmp_.left) and "self._size()" in ast.unparse(cmp_.comparators[0])))
+        if strict:
             body_calls = [call_name(c) for st in w.body for c in ast.walk(st) if isinstance(c, ast.Call)]
             if "self._remove_item_from_cache" in body_calls:
                 okw = True
-    ctx.expect(okw, "R18.5", "_cache_eviction[loop]", "files are removed through the entry+file remover while size > limit", ev.loc())
+    ctx.expect(okw, "R18.5", "_cache_eviction[loop]", "files are removed through the entry+file remover while size > limit (strictly: a cache exactly at its limit evicts nothing more)", ev.loc())
+    guards = [n for n in own_walk(ev.node) if isinstance(n, ast.If) and "self._size()" in ast.unparse(n.test)
+              and any(isinstance(x, ast.Return) for b in n.body for x in ast.walk(b))]
+    okg = True
+    for g_ in guards:
+        tt = ast.unparse(g_.test).replace(" ", "")
+        okg = okg and tt in ("notself._size()>self.config.max_size_bytes", "self._size()<=self.config.max_size_bytes")
+    ctx.expect(okg, "R18.5", "_cache_eviction[no-op at or below the limit]",
+               "eviction returns without deleting anything when size <= limit", ev.loc())
     rm = p.get_method(FC, "_remove_item_from_cache")
     rm_pop = any(call_name(c).endswith("_entries.pop") for c in calls(rm.node))
     rm_del = any(resolve_ext(p, rm, c) == "os.remove" for c in calls(rm.node))
@@ -505,7 +517,7 @@ def run(ctx):
     ctx.require_count("R18.2", 6)
     ctx.require_count("R18.3", 9)
     ctx.require_count("R18.4", 3)
-    ctx.require_count("R18.5", 8)
+    ctx.require_count("R18.5", 9)
     ctx.require_count("R18.6", 2)
     ctx.functions_analysed.update({f.qualname: 1 for f in fc_funcs})
     ctx.calls_resolved += cg.stats()["call_sites_resolved"]
